@@ -295,6 +295,13 @@ class Check:
         import re
 
         key = re.sub(r"(\.rs):\d+(:\d+)?", r"\1", key)
+        if key not in self.known and "+" in key.rpartition("|")[2]:
+            # one case showing several independent recorded findings (`prefix|a+b`): known iff
+            # every component `prefix|a`, `prefix|b` is known; booked on the first component
+            prefix, _, last = key.rpartition("|")
+            parts = [f"{prefix}|{x}" for x in last.split("+")]
+            if all(x in self.known for x in parts):
+                key = parts[0]
         self.evaluations += 1
         if key in self.known:
             self.known_hits[key] = self.known_hits.get(key, 0) + 1
